@@ -31,7 +31,7 @@ SIM_TIME_UNIT = 'ops of the simulated training loop'
 
 
 def budget(tier):
-    return {'runs': 2500, 'seconds': 75} if tier == 'quick' else {'runs': 200000, 'seconds': 1500}
+    return {'runs': 4000, 'seconds': 75} if tier == 'quick' else {'runs': 200000, 'seconds': 1500}
 
 
 BASE_WEIGHTS = {'train_step': 6, 'backward_only': 1.5, 'opt_step': 1.5, 'forward_only': 2, 'perturb_arch': 2,
